@@ -879,6 +879,11 @@ class Exec:
         return res
 
     def compare(self, op, a, b, node):
+        if (isinstance(a, NdArr) or isinstance(b, NdArr)) and not isinstance(op, (ast.Is, ast.IsNot, ast.In, ast.NotIn)):
+            n_ = len(a) if isinstance(a, NdArr) else len(b)
+            ai = list(a) if isinstance(a, NdArr) else [a] * n_
+            bi = list(b) if isinstance(b, NdArr) else [b] * n_
+            return NdArr([self.compare(op, x_, y_, node) for x_, y_ in zip(ai, bi)])       # numpy: element-wise, an array of booleans
         if isinstance(op, (ast.Is, ast.IsNot)):
             r = (a is b) or (a is None and b is None)
             if isinstance(a, (sp.Basic, Cx)) or isinstance(b, (sp.Basic, Cx)):
@@ -1740,6 +1745,27 @@ def _sh_sorted(ex, node, x, **k):
     return sorted(x)
 
 
+def _elementwise(f):
+    def g(ex, node, x, *a, **k):
+        if isinstance(x, NdArr):
+            return NdArr([f(ex, node, v, *a, **k) for v in x])
+        return f(ex, node, x, *a, **k)
+    g.__name__ = f.__name__
+    return g
+
+
+_sh_abs, _sh_sqrt, _sh_cbrt, _sh_exp, _sh_log, _sh_sin, _sh_cos, _sh_tan, _sh_sign, _sh_conj, _sh_float = [_elementwise(f_) for f_ in
+    (_sh_abs, _sh_sqrt, _sh_cbrt, _sh_exp, _sh_log, _sh_sin, _sh_cos, _sh_tan, _sh_sign, _sh_conj, _sh_float)]
+
+
+def _sh_np_any(ex, node, x):
+    return _sh_any(ex, node, list(x) if isinstance(x, (list, tuple)) else [x])
+
+
+def _sh_np_all(ex, node, x):
+    return _sh_all(ex, node, list(x) if isinstance(x, (list, tuple)) else [x])
+
+
 SHIMS = {
     "abs": _sh_abs, "float": _sh_float, "int": _sh_int, "complex": _sh_complex, "len": _sh_len, "range": _sh_range,
     "prange": _sh_range, "max": _sh_max, "min": _sh_min, "isinstance": _sh_isinstance, "sum": _sh_sum, "print": _sh_print,
@@ -1753,6 +1779,7 @@ _NP = {
     "conjugate": _sh_conj, "pi": T.PI, "sign": _sh_sign, "isnan": _sh_isnan, "power": _sh_power,
     "asarray": _sh_identity, "ascontiguousarray": _sh_identity, "copy": _sh_identity, "ones_like": _sh_ones_like,
     "zeros_like": _sh_zeros_like, "float64": _sh_float, "complex128": "complex128", "maximum": _sh_max, "minimum": _sh_min,
+    "any": _sh_np_any, "all": _sh_np_all,
     "ndarray": "ndarray", "inf": sp.oo, "e": None, "empty": _sh_empty, "zeros": _sh_empty, "complex128_t": "complex128",
 }
 NP = Namespace("np", _NP)
